@@ -182,7 +182,7 @@ def build_job(ctx):
             for a in apis:
                 calls.append([a, key])
 
-    add("fn", fn_subset(), ["function_parse", "function_roundtrip", "function_to_class", "function_to_argparse", "function_to_docstring"], n * 2)
+    add("fn", fn_subset(), ["function_parse", "function_roundtrip", "function_positional", "function_to_class", "function_to_argparse", "function_to_docstring"], n * 2)
     add("cls", emitted("class"), ["class_parse", "class_to_all"], n)
     add("arg", emitted("argparse", "common"), ["argparse_parse"], max(2, n // 2))
     add("odd", odd_typed_class(), ["class_parse", "class_to_all"], n)
